@@ -32,7 +32,12 @@ EXPLANATION = (
     "fed node.get_size() exactly as often as the file is counted. (7) every cap class returned by a get_verify_cap "
     "in allmydata.uri hashes and compares by its string form (so two node objects of one directory de-duplicate); "
     "_BaseURI.__eq__ gives an answer other than the to_string() comparison only on paths where the other object is "
-    "known not to be a _BaseURI. "
+    "known not to be a _BaseURI. (8) every normal return of _deep_traverse_dirnode_children has completed the loop over the "
+    "listing and both visit-registration loops (an early return needs the listing / that queue to have been seen empty); the "
+    "iterable of the per-child loop is the listing parameter as received (local copies followed; no filtering comprehension, "
+    "slice or filter() on the way); a queue is not re-bound or shortened once children may be in it; every branch condition "
+    "that depends on the found set is the membership test of the current child's own verify cap inside the per-child loop - "
+    "so no child is skipped for what is known about other children, and (with 1) a None verify cap never counts as seen. "
     "Undecided: that write-cap and read-cap of one object derive equal verify caps (value level), that the class tests "
     "used by DeepStats are the right ones for every node class (value level), largest-* maxima, behaviour of the "
     "walker's own Deferreds beyond being returned, cancellation timing (raise_if_cancelled), the turn break every 100 "
@@ -239,9 +244,14 @@ def run(ctx: Context):
                   "path + [name]", expected=5) as r:
         itdeps = depends_on(CH, L1.iter)
         r.site(CH, L1, "loop over the listing")
-        r.require(ch_params[0] in itdeps and any(call_tail(c) == "items" for c in own_nodes(L1.iter) if isinstance(c, ast.Call)),
+        it_expr = L1.iter
+        if isinstance(it_expr, ast.Name):             # the iterable hoisted into a local
+            ds_ = fnorm.rd.get(head.id, {}).get(it_expr.id) or ()
+            if len(ds_) == 1 and min(ds_) >= 0 and assign_value(cfg.nodes[min(ds_)], it_expr.id) is not None:
+                it_expr = assign_value(cfg.nodes[min(ds_)], it_expr.id)
+        r.require(ch_params[0] in itdeps and any(call_tail(c) == "items" for c in own_nodes(it_expr) if isinstance(c, ast.Call)),
                   CH, CH.loc(L1), "the loop does not run over all items of the listing %s" % ch_params[0])
-        for x in own_nodes(L1.iter):
+        for x in own_nodes(it_expr):
             if isinstance(x, (ast.ListComp, ast.GeneratorExp, ast.Subscript)) or \
                     (isinstance(x, ast.Call) and call_tail(x) in ("filter", "islice")):
                 r.violation(CH, CH.loc(L1), "the listing is filtered / sliced before the walk: %s" % src(CH, L1.iter))
@@ -1040,6 +1050,183 @@ def run(ctx: Context):
                                 "%s defines __eq__ without __hash__: verifier %s becomes unhashable" % (c.name, name))
                 if any(isinstance(x, ast.Constant) and x.value is None for x in c.attrs.get("__hash__", [])):
                     r.violation(ci.qual, "%s:%s" % (c.module.relpath, c.node.lineno), "%s sets __hash__ = None" % c.name)
+
+    # -- 8. no child is skipped on a fact about other children ----------------------------------
+    with ctx.rule("C21.8", "R1/R4", "_deep_traverse_dirnode_children: every normal return has run the loop over the whole "
+                  "listing and drained both queues (unless the listing / the queue was seen empty); the listing reaches "
+                  "the loop unfiltered; queued children are not removed again; the only decision taken from the found "
+                  "set is 'this child's own verify cap in found' inside the loop", expected=5) as r:
+        LISTING = ch_params[0]
+        rd = fnorm.rd
+        heads = {"listing": head}
+        for kind in ("file", "dir"):
+            lp = consumers[kind][0][0]
+            hs = [n for n in cfg.nodes if n.kind == "iter" and n.ast is lp]
+            if not hs:
+                raise AnchorVanished("loop over the queued %s children not in the CFG" % kind)
+            heads[kind] = hs[0]
+        QUEUE = {"file": FILEL, "dir": DIRL}
+
+        def empty_fact(f, name):
+            """The edge fact says that the collection `name` is empty."""
+            if not f:
+                return False
+            op, l, rr = f
+            if op == "false" and l in (name, "len(%s)" % name):
+                return True
+            if op in ("==", "is", "<=") and {l, rr} == {"len(%s)" % name, "0"}:
+                return op != "<=" or l == "len(%s)" % name
+            if op == "<" and l == "len(%s)" % name and rr == "1":
+                return True
+            return False
+
+        def grows(n, q):
+            if any(_recv_is(c, q) and call_tail(c) in ("append", "insert", "extend") for c in node_calls(n)):
+                return True
+            return n.kind == "stmt" and isinstance(n.ast, ast.AugAssign) and isinstance(n.ast.target, ast.Name) \
+                and n.ast.target.id == q
+
+        # (a) state: listing walked, listing seen empty, per queue: drained / seen empty (since it last grew)
+        def tr(n, lab, nxt, st):
+            if lab == "exc":
+                return None
+            p1, e0, pf, ef, pd, ed = st
+            if n.kind in ("stmt", "iter") and LISTING in node_stores(n):
+                e0 = False
+            if grows(n, FILEL) or (n.kind in ("stmt", "iter") and FILEL in node_stores(n)):
+                ef = False
+            if grows(n, DIRL) or (n.kind in ("stmt", "iter") and DIRL in node_stores(n)):
+                ed = False
+            if n is heads["listing"]:
+                if lab == "done":
+                    p1 = True
+                else:
+                    pf = pd = ef = ed = False         # something may be queued from here on
+            if n is heads["file"] and lab == "done":
+                pf = True
+            if n is heads["dir"] and lab == "done":
+                pd = True
+            f = fnorm.edge_fact(n, lab)
+            if empty_fact(f, LISTING):
+                e0 = True
+            if p1 and empty_fact(f, FILEL):
+                ef = True
+            if p1 and empty_fact(f, DIRL):
+                ed = True
+            return (p1, e0, pf, ef, pd, ed)
+        visited, parent = explore(cfg, (False,) * 6, tr)
+        r.count(len(visited))
+        for k in ("listing", "file", "dir"):
+            r.site(CH, heads[k].ast, "loop that every return must have completed (%s)" % k)
+        said = set()
+        for (nid, st) in sorted(visited):
+            if cfg.nodes[nid].kind != "exit":
+                continue
+            p1, e0, pf, ef, pd, ed = st
+            msg = None
+            if not p1:
+                if not e0:
+                    msg = ("listing", "_deep_traverse_dirnode_children can return without looking at the children one by one "
+                           "although the listing %s was not seen to be empty: a decision about all children at once (e.g. "
+                           "'all already in %s', where LIT children count as None) keeps children from being reported" % (
+                               LISTING, FOUND))
+            elif not (pf or ef):
+                msg = ("file", "_deep_traverse_dirnode_children can return after classifying the children without "
+                       "registering the visits of %s: the queued file children are never reported" % FILEL)
+            elif not (pd or ed):
+                msg = ("dir", "_deep_traverse_dirnode_children can return after classifying the children without "
+                       "registering the visits of %s: the queued subdirectories are never traversed" % DIRL)
+            if msg and msg[0] not in said:
+                said.add(msg[0])
+                w = witness(cfg, parent, (nid, st))
+                r.violation(CH, CH.loc(heads[msg[0]].ast), "%s (path: %s)" % (msg[1], w.brief()), w)
+
+        # (b) the listing reaches the loop as received: follow local copies of the iterable back to the parameter
+        flagged, reached = [], []
+
+        def filterish(x):
+            if isinstance(x, (ast.ListComp, ast.SetComp, ast.GeneratorExp, ast.DictComp)):
+                return any(g.ifs for g in x.generators)
+            if isinstance(x, ast.Subscript):
+                return isinstance(x.slice, ast.Slice)
+            return isinstance(x, ast.Call) and call_tail(x) in ("filter", "islice", "filterfalse", "takewhile", "dropwhile")
+
+        def expand(at, e, depth, seen):
+            for x in own_nodes(e):
+                if filterish(x):
+                    flagged.append((at, x))
+                if not (isinstance(x, ast.Name) and isinstance(x.ctx, ast.Load)):
+                    continue
+                ds = rd.get(at.id, {}).get(x.id)
+                if not ds:
+                    continue                              # a global / builtin
+                if x.id == LISTING and set(ds) == {-1}:
+                    reached.append(at)
+                    continue
+                for dnid in sorted(ds):
+                    if dnid < 0 or (dnid, x.id) in seen or depth > 6:
+                        continue
+                    seen.add((dnid, x.id))
+                    dn_ = cfg.nodes[dnid]
+                    v = assign_value(dn_, x.id) if dn_.kind == "stmt" else None
+                    if v is None:
+                        if x.id == LISTING:
+                            flagged.append((dn_, dn_.ast))
+                        continue
+                    expand(dn_, v, depth + 1, seen)
+        expand(head, L1.iter, 0, set())
+        r.site(CH, L1.iter, "iterable of the loop over the listing")
+        for (at, x) in flagged[:1]:
+            r.violation(CH, CH.loc(x), "the listing is filtered / re-bound (%s) before the per-child loop sees it: children "
+                        "are dropped without the per-child test" % src(CH, x))
+        r.require(bool(reached) or bool(flagged), CH, CH.loc(L1), "the loop over the children does not run over the listing "
+                  "%s that was handed in" % LISTING)
+
+        # (c) what was queued stays queued until its visit is registered
+        after, work = {head.id}, [head.id]
+        while work:
+            cur = work.pop()
+            for (dnid, lab) in cfg.succ[cur]:
+                if lab != "exc" and dnid not in after:
+                    after.add(dnid)
+                    work.append(dnid)
+        for n in cfg.nodes:
+            if n.id not in after or n is head:
+                continue
+            for kind, q in QUEUE.items():
+                dropped = None
+                if n.kind in ("stmt", "iter") and not grows(n, q) and (q in node_stores(n) or (
+                        isinstance(n.ast, ast.Delete) and (q + "[]") in node_stores(n))):
+                    dropped = n.ast if n.kind == "stmt" else n.ast.target
+                for c in node_calls(n):
+                    if _recv_is(c, q) and call_tail(c) in ("pop", "remove", "clear", "__delitem__"):
+                        dropped = c
+                if dropped is not None:
+                    r.violation(CH, CH.loc(dropped), "%s is re-bound / shortened (%s) after children were queued in it: "
+                                "those children are never visited" % (q, src(CH, dropped)))
+
+        # (d) decisions taken from the found set
+        n_dec = 0
+        for n in cfg.nodes:
+            if n.kind != "test" or n.ast is None:
+                continue
+            mentions = any(isinstance(x, ast.Name) and x.id == FOUND for x in own_nodes(n.ast, into_lambda=True))
+            if not mentions and FOUND not in depends_on(CH, n.ast):
+                continue
+            n_dec += 1
+            ok = False
+            for (dnid, lab) in cfg.succ[n.id]:
+                f = fnorm.edge_fact(n, lab)
+                if f and f[0] in ("in", "not in") and f[1] == VER and f[2] == FOUND:
+                    ok = True
+            ok = ok and id(n.ast) in body_ids
+            r.site(CH, n.ast, "decision taken from %s" % FOUND)
+            r.require(ok, CH, CH.loc(n.ast), "the walk takes a decision from the %s set (%s) that is not the test of the "
+                      "current child's own verify cap inside the per-child loop: %s also holds None (LIT children) and caps "
+                      "of other children, so children can be skipped for what is known about others" % (
+                          FOUND, src(CH, n.ast), FOUND))
+        if not n_dec:
+            raise AnchorVanished("_deep_traverse_dirnode_children takes no decision from %s" % FOUND)
 
 
 def _node_of_call(cfg, call, into_lambda=True):
